@@ -689,11 +689,11 @@ class CGenerator:
                         taganddefault = extractDefaultAndTag(line)
                         key = cleanTag(removeDefault("<<<" + taganddefault[1] + ">>>"))
                         if key in dict_key_vals:
-                            line = replaceDefault(line, dict_key_vals[key])
+                            value = dict_key_vals[key]
+                            line = replaceDefault(line, "" if value is None else str(value))
                         elif key in defaults_in_files_FOR:
                             line = replaceDefault(line, defaults_in_files_FOR[key])
-                        else:
-                            line = "//POO"
+                        # else: a literal list or count (<<<FOR_BEGIN=a,b>>>, <<<FOR_BEGIN=3>>>): nothing to substitute.
                     elif has_tag and not has_for and has_if:
                         is_processing_if = True
                         # get the expression in the IF ... delimiter is ' '.
